@@ -369,6 +369,39 @@ def gen_case(rnd, i, maxn):
     return c
 
 
+def near_tie_case(rnd):
+    """A genuine tie on the deciding tally whose score tiebreak separates the tied candidates by ONE unit at a magnitude of
+    2^53..10^18 (or by 10^-20 at unit magnitude): the recorded resolution must follow the exact secondary score, no random
+    fallback.  Three families: Plurality/SNTV + borda, Borda + first_place, STV-family elimination (initial first-place votes)."""
+    from fractions import Fraction as F
+    big = rnd.random() < 0.7
+    W = F(rnd.choice([2 ** 53, 10 ** 17, 10 ** 18, 2 ** 60 + 1])) if big else F(rnd.choice([1, 3, 10]))
+    u = F(1) if big else F(1, 10 ** 20)
+    names = rnd.sample(gen.NAMES, 4)
+    a, b, c, d = names
+    B = lambda r, w: canon.spec_ballot(r=[[x] for x in r], w=w)  # noqa
+    fam = rnd.choice(["plurality-borda", "borda-first_place", "stv-elimination"])
+    if fam == "plurality-borda":
+        cs = rnd.sample([a, b, c], 3)
+        bl = [B([a, b, c], W), B([b, a, c], W), B([c, a, b], u)]
+        cfg = {"rule": rnd.choice(["Plurality", "SNTV"]), "m": 1, "tiebreak": "borda"}
+    elif fam == "borda-first_place":
+        cs = rnd.sample([a, b, c], 3)
+        bl = [B([a, b, c], W), B([b, a, c], W), B([a, c, b], u), B([c, b, a], 2 * u)]
+        cfg = {"rule": "Borda", "m": 1, "tiebreak": "first_place"}
+    else:
+        cs = rnd.sample([a, b, c, d], 4)
+        bl = [B([a, c], W + u), B([b, c], W), B([c, a], 3 * W), B([d, b], u)]
+        rule = rnd.choice(["STV", "IRV", "SequentialRCV"])
+        cfg = {"rule": rule, "quota": "droop", "tiebreak": rnd.choice(["random", "borda", "first_place"])}
+        if rule != "IRV":
+            cfg.update(m=1, sim=rnd.random() < 0.5)
+        if rule == "STV":
+            cfg["transfer"] = "fractional"
+    rnd.shuffle(bl)
+    return {"cfg": cfg, "profile": canon.spec_profile(cs, bl), "tag": "near-tie-" + fam}
+
+
 def run(ctx):
     maxn = 6 if ctx.quick else 7
     max_runs = 5 if ctx.quick else 24
@@ -376,6 +409,9 @@ def run(ctx):
         if ctx.expired():
             break
         ctx.guard("check", check_case, ctx, gen_case(ctx.rnd, i + ctx.shard, maxn), max_runs)
+        if i % 25 == 0:
+            ctx.count("near_tie_cases")
+            ctx.guard("check", check_case, ctx, near_tie_case(ctx.rnd), max_runs)
 
 
 def replay(ctx, case):
